@@ -52,7 +52,7 @@ def run(module, cfg, scratch, workers=16, timeout=600, simulate=None, depth=None
         with open(os.path.join(work, "_inline.cfg"), "w") as fh:
             fh.write(cfg)
         cfg = "_inline.cfg"
-    jopts = ["-XX:+UseParallelGC", "-Xmx" + heap]
+    jopts = ["-XX:+UseParallelGC", "-Xmx" + heap, "-Xss64m"]   # deep values (long size vectors) need stack in TLC's worker threads
     if deque:
         jopts.append("-Dtlc2.tool.queue.IStateQueue=StateDeque")
     cmd = ["java"] + jopts + ["-cp", JAR, "tlc2.TLC", "-config", cfg, "-workers", str(workers),
